@@ -72,3 +72,56 @@ def make_ctc_engine(n_classes, characters, line_px_height=8, pool=1, bias_blank=
     ck = ensure_pixel_stub(n_classes, pool, bias_blank, ctx)
     js = engine_json(f'engine_c{n_classes}_p{pool}_b{bias_blank}_x{ctx}_h{line_px_height}', ck, characters, line_px_height)
     return PytorchEngineLineOCR(js, torch.device('cpu'), batch_size=batch_size)
+
+
+# ------------------------------------------------------------------ toy language models (C03, C08)
+class _ToyModel(nn.Module):
+    """state = exact hash of the whole prefix: h' = (mult*h + x + 1) mod 9973, float64 (exact for these sizes)"""
+
+    def __init__(self, mult: float):
+        super().__init__()
+        self.mult = mult
+        self._p = nn.Parameter(torch.zeros(1, dtype=torch.float64), requires_grad=False)
+
+    def forward(self, xs, hs):
+        # xs: [B, L] long ; hs: [1, B, 1]
+        h = hs
+        for i in range(xs.shape[1]):
+            x = xs[:, i].to(torch.float64).reshape(1, -1, 1)
+            h = torch.remainder(h * self.mult + x + 1.0, 9973.0)
+        return None, h
+
+    def init_hidden(self, bsz):
+        return torch.full((1, bsz, 1), 3.0, dtype=torch.float64)
+
+
+class _ToyDecoder(nn.Module):
+    def __init__(self, kind: int, vocab_size: int):
+        super().__init__()
+        self.kind = kind
+        self.vocab_size = vocab_size
+
+    def forward(self, h):
+        # h: [B, 1] (or [1, B, 1]) -> scores [B, V], a fixed pseudo-random function of the state
+        v = torch.arange(self.vocab_size, dtype=torch.float64)
+        if self.kind == 0:
+            return -(torch.remainder(h * 31.0 + v * 17.0 + 7.0, 13.0) / 4.0 + 0.1)
+        if self.kind == 1:
+            return -(torch.remainder(h * 11.0 + v * 5.0 + 3.0, 7.0) / 2.0 + 0.25)
+        return torch.zeros_like(h) - 1.0 - 0.0 * v      # constant LM: every continuation equally likely (ties)
+
+
+class ToyLM(nn.Module):
+    def __init__(self, kind, letters):
+        super().__init__()
+        self.vocab = {'</s>': 0}
+        for i, c in enumerate(letters):
+            self.vocab[c] = i + 1
+        self._unused_prefix_len = 1
+        self.model = _ToyModel([5.0, 7.0, 5.0][kind])
+        self.decoder = _ToyDecoder(kind, len(letters) + 1)
+
+
+def make_lm_wrapper(kind, letters):
+    from pero_ocr.decoding.lm_wrapper import LMWrapper
+    return LMWrapper(ToyLM(kind, letters), list(letters), torch.device('cpu'))
